@@ -28,6 +28,9 @@ impl C17 {
 		cfg.w_refresh += 8;
 		cfg.w_new_send += 6;
 		cfg.w_cancel = 0;
+		// known defect family (C01/C04/C05): spending unconfirmed outputs makes the repair
+		// scan inside a refresh cancel entries for reasons unrelated to expiry
+		cfg.avoid_spend_unconfirmed = true;
 		cfg.max_inflight = 2 + run.rng.below(3) as usize;
 		let gen = HistGen::new(cfg, run);
 		C17 {
